@@ -8,6 +8,7 @@ pub mod h_derive;
 pub mod h_json;
 pub mod h_text;
 pub mod h_containers;
+pub mod h_value;
 
 pub type Body = fn();
 /// harness name -> body (used by the native replay binary)
@@ -18,6 +19,7 @@ pub fn registry() -> Vec<(&'static str, Body)> {
     v.extend(h_json::registry());
     v.extend(h_text::registry());
     v.extend(h_containers::registry());
+    v.extend(h_value::registry());
     v
 }
 
